@@ -167,16 +167,22 @@ inductive AfeEntry
   | el (e : El)
   deriving DecidableEq, Repr, Inhabited
 
+/-- the part of the parser state that the stack / list algorithms work on -/
+structure Tree where
+  /-- stack of open elements, current node first -/
+  stack : List El := []
+  /-- list of active formatting elements, most recently added first -/
+  afe : List AfeEntry := []
+  /-- next fresh element identity -/
+  nextId : Nat := 0
+  deriving DecidableEq, Repr, Inhabited
+
 /-- parser state (§13.2.4) -/
 structure State where
   mode : Mode := .initial
   origMode : Mode := .initial
   /-- stack of template insertion modes, current one first -/
   tmodes : List Mode := []
-  /-- stack of open elements, current node first -/
-  stack : List El := []
-  /-- list of active formatting elements, most recently added first -/
-  afe : List AfeEntry := []
   headPtr : Option El := none
   formPtr : Option El := none
   framesetOk : Bool := true
@@ -184,10 +190,17 @@ structure State where
   quirks : Bool := false
   /-- pending table character tokens, most recent first -/
   pending : List CharClass := []
-  nextId : Nat := 0
+  /-- stack of open elements and list of active formatting elements -/
+  tree : Tree := {}
   deriving DecidableEq, Repr, Inhabited
 
 def State.init : State := {}
+
+/-- apply a stack / list operation; everything else is untouched -/
+@[inline] def State.onTree (s : State) (f : Tree → Tree) : State := { s with tree := f s.tree }
+
+abbrev State.stack (s : State) : List El := s.tree.stack
+abbrev State.afe (s : State) : List AfeEntry := s.tree.afe
 
 /-! ## Element classes -/
 
@@ -232,38 +245,38 @@ def formattingNames : List Name :=
 
 /-! ## Stack of open elements (§13.2.4.3) -/
 
-def State.current (s : State) : Option El := s.stack.head?
+def Tree.current (s : Tree) : Option El := s.stack.head?
 
-def State.currentIs (s : State) (n : Name) : Bool :=
+def Tree.currentIs (s : Tree) (n : Name) : Bool :=
   match s.stack with
   | e :: _ => e.isHtml n
   | [] => false
 
-def State.currentIsIn (s : State) (l : List Name) : Bool :=
+def Tree.currentIsIn (s : Tree) (l : List Name) : Bool :=
   match s.stack with
   | e :: _ => e.isHtmlIn l
   | [] => false
 
 /-- create an element with a fresh identity and push it ("insert an HTML element" / "insert a foreign
 element", §13.2.6.1, without the DOM part) -/
-def State.pushNew (s : State) (ns : Ns) (n : Name) (a : Attrs) : State :=
+def Tree.pushNew (s : Tree) (ns : Ns) (n : Name) (a : Attrs) : Tree :=
   { s with stack := ⟨s.nextId, ns, n, a⟩ :: s.stack, nextId := s.nextId + 1 }
 
 /-- "insert an HTML element for the token" -/
-def State.insertHtml (s : State) (n : Name) (a : Attrs := {}) : State := s.pushNew .html n a
+def Tree.insertHtml (s : Tree) (n : Name) (a : Attrs := {}) : Tree := s.pushNew .html n a
 
 /-- "pop the current node off the stack of open elements" -/
-def State.pop (s : State) : State := { s with stack := s.stack.tail }
+def Tree.pop (s : Tree) : Tree := { s with stack := s.stack.tail }
 
 /-- "insert an HTML element for the token. Immediately pop the current node off the stack" -/
-def State.insertAndPop (s : State) (n : Name) (a : Attrs := {}) : State := (s.insertHtml n a).pop
+def Tree.insertAndPop (s : Tree) (n : Name) (a : Attrs := {}) : Tree := (s.insertHtml n a).pop
 
-def State.onStack (s : State) (id : Nat) : Bool := s.stack.any (·.id == id)
+def Tree.onStack (s : Tree) (id : Nat) : Bool := s.stack.any (·.id == id)
 
-def State.hasOnStack (s : State) (n : Name) : Bool := s.stack.any (·.isHtml n)
+def Tree.hasOnStack (s : Tree) (n : Name) : Bool := s.stack.any (·.isHtml n)
 
 /-- remove an element (by identity) from the stack -/
-def State.removeFromStack (s : State) (id : Nat) : State :=
+def Tree.removeFromStack (s : Tree) (id : Nat) : Tree :=
   { s with stack := s.stack.filter (·.id != id) }
 
 /-- pop elements until one satisfying `p` has been popped (everything, if there is none) -/
@@ -276,22 +289,22 @@ def popWhileNot (p : El → Bool) : List El → List El
   | [] => []
   | e :: es => if p e then e :: es else popWhileNot p es
 
-def State.popUntilNamed (s : State) (n : Name) : State :=
+def Tree.popUntilNamed (s : Tree) (n : Name) : Tree :=
   { s with stack := popUntil (·.isHtml n) s.stack }
 
-def State.popUntilIn (s : State) (l : List Name) : State :=
+def Tree.popUntilIn (s : Tree) (l : List Name) : Tree :=
   { s with stack := popUntil (·.isHtmlIn l) s.stack }
 
 /-- §13.2.6.4.9 "clear the stack back to a table context" -/
-def State.clearToTableContext (s : State) : State :=
+def Tree.clearToTableContext (s : Tree) : Tree :=
   { s with stack := popWhileNot (·.isHtmlIn [.table, .template, .html]) s.stack }
 
 /-- §13.2.6.4.13 "clear the stack back to a table body context" -/
-def State.clearToTableBodyContext (s : State) : State :=
+def Tree.clearToTableBodyContext (s : Tree) : Tree :=
   { s with stack := popWhileNot (·.isHtmlIn [.tbody, .tfoot, .thead, .template, .html]) s.stack }
 
 /-- §13.2.6.4.14 "clear the stack back to a table row context" -/
-def State.clearToTableRowContext (s : State) : State :=
+def Tree.clearToTableRowContext (s : Tree) : Tree :=
   { s with stack := popWhileNot (·.isHtmlIn [.tr, .template, .html]) s.stack }
 
 /-! ## Scopes (§13.2.4.3 "has an element in a specific scope") -/
@@ -315,21 +328,21 @@ def El.isTableScopeBoundary (e : El) : Bool := e.isHtmlIn [.html, .table, .templ
 /-- "has an element in select scope": everything except `optgroup` and `option` is a boundary -/
 def El.isSelectScopeBoundary (e : El) : Bool := !e.isHtmlIn [.optgroup, .option]
 
-def State.inScope (c : Cfg) (s : State) (n : Name) : Bool :=
+def Tree.inScope (c : Cfg) (s : Tree) (n : Name) : Bool :=
   hasInScopeBy (·.isHtml n) (·.isDefaultScopeBoundary c) s.stack
-def State.inScopeIn (c : Cfg) (s : State) (l : List Name) : Bool :=
+def Tree.inScopeIn (c : Cfg) (s : Tree) (l : List Name) : Bool :=
   hasInScopeBy (·.isHtmlIn l) (·.isDefaultScopeBoundary c) s.stack
-def State.inScopeId (c : Cfg) (s : State) (id : Nat) : Bool :=
+def Tree.inScopeId (c : Cfg) (s : Tree) (id : Nat) : Bool :=
   hasInScopeBy (·.id == id) (·.isDefaultScopeBoundary c) s.stack
-def State.inListItemScope (c : Cfg) (s : State) (n : Name) : Bool :=
+def Tree.inListItemScope (c : Cfg) (s : Tree) (n : Name) : Bool :=
   hasInScopeBy (·.isHtml n) (·.isListItemScopeBoundary c) s.stack
-def State.inButtonScope (c : Cfg) (s : State) (n : Name) : Bool :=
+def Tree.inButtonScope (c : Cfg) (s : Tree) (n : Name) : Bool :=
   hasInScopeBy (·.isHtml n) (·.isButtonScopeBoundary c) s.stack
-def State.inTableScope (s : State) (n : Name) : Bool :=
+def Tree.inTableScope (s : Tree) (n : Name) : Bool :=
   hasInScopeBy (·.isHtml n) (·.isTableScopeBoundary) s.stack
-def State.inTableScopeIn (s : State) (l : List Name) : Bool :=
+def Tree.inTableScopeIn (s : Tree) (l : List Name) : Bool :=
   hasInScopeBy (·.isHtmlIn l) (·.isTableScopeBoundary) s.stack
-def State.inSelectScope (s : State) (n : Name) : Bool :=
+def Tree.inSelectScope (s : Tree) (n : Name) : Bool :=
   hasInScopeBy (·.isHtml n) (·.isSelectScopeBoundary) s.stack
 
 /-! ## Implied end tags (§13.2.6.3) -/
@@ -345,18 +358,18 @@ def popImplied (l : List Name) (except : Option Name) : List El → List El
     if e.isHtmlIn l && !(except == some e.name) then popImplied l except es else e :: es
 
 /-- "generate implied end tags", optionally "except for `n` elements" -/
-def State.genImplied (s : State) (except : Option Name := none) : State :=
+def Tree.genImplied (s : Tree) (except : Option Name := none) : Tree :=
   { s with stack := popImplied impliedNames except s.stack }
 
 /-- "generate all implied end tags thoroughly" -/
-def State.genImpliedThoroughly (s : State) : State :=
+def Tree.genImpliedThoroughly (s : Tree) : Tree :=
   { s with stack := popImplied impliedThoroughNames none s.stack }
 
 /-- §13.2.6.4.7 "close a p element" -/
-def State.closeP (s : State) : State := (s.genImplied (some .p)).popUntilNamed .p
+def Tree.closeP (s : Tree) : Tree := (s.genImplied (some .p)).popUntilNamed .p
 
 /-- "if the stack of open elements has a p element in button scope, then close a p element" -/
-def State.closePInButtonScope (c : Cfg) (s : State) : State :=
+def Tree.closePInButtonScope (c : Cfg) (s : Tree) : Tree :=
   if s.inButtonScope c .p then s.closeP else s
 
 /-! ## Reset the insertion mode appropriately (§13.2.4.1) -/
@@ -394,6 +407,6 @@ def resetLoop (c : Cfg) (tmodes : List Mode) (headNull : Bool) : List El → Mod
 
 /-- "reset the insertion mode appropriately" -/
 def State.resetMode (c : Cfg) (s : State) : State :=
-  { s with mode := resetLoop c s.tmodes s.headPtr.isNone s.stack }
+  { s with mode := resetLoop c s.tmodes s.headPtr.isNone s.tree.stack }
 
 end LolHtml.Spec.TreeBuilder
